@@ -634,14 +634,21 @@ func (t tags) Len() int      { return len(t.t) }
 func (t tags) Swap(i, j int) { t.t[i], t.t[j] = t.t[j], t.t[i] }
 func (t tags) Less(i, j int) bool {
 	if !t.flat {
-		if t.t[i].Cum != t.t[j].Cum {
-			return abs64(t.t[i].Cum) > abs64(t.t[j].Cum)
+		if ci, cj := abs64(t.t[i].Cum), abs64(t.t[j].Cum); ci != cj {
+			return ci > cj
 		}
 	}
-	if t.t[i].Flat != t.t[j].Flat {
-		return abs64(t.t[i].Flat) > abs64(t.t[j].Flat)
+	if fi, fj := abs64(t.t[i].Flat), abs64(t.t[j].Flat); fi != fj {
+		return fi > fj
 	}
-	return t.t[i].Name < t.t[j].Name
+	if t.t[i].Name != t.t[j].Name {
+		return t.t[i].Name < t.t[j].Name
+	}
+	// Values of equal magnitude and opposite sign.
+	if t.t[i].Cum != t.t[j].Cum {
+		return t.t[i].Cum > t.t[j].Cum
+	}
+	return t.t[i].Flat > t.t[j].Flat
 }
 
 // Sum adds the flat and cum values of a set of nodes.
@@ -1158,8 +1165,8 @@ func (el edgeList) Len() int {
 }
 
 func (el edgeList) Less(i, j int) bool {
-	if el[i].Weight != el[j].Weight {
-		return abs64(el[i].Weight) > abs64(el[j].Weight)
+	if wi, wj := abs64(el[i].Weight), abs64(el[j].Weight); wi != wj {
+		return wi > wj
 	}
 
 	from1 := el[i].Src.Info.PrintableName()
@@ -1170,8 +1177,19 @@ func (el edgeList) Less(i, j int) bool {
 
 	to1 := el[i].Dest.Info.PrintableName()
 	to2 := el[j].Dest.Info.PrintableName()
+	if to1 != to2 {
+		return to1 < to2
+	}
 
-	return to1 < to2
+	// Break the remaining ties (weights of opposite sign, nodes that
+	// print alike) so that the order never depends on map iteration.
+	if el[i].Weight != el[j].Weight {
+		return el[i].Weight > el[j].Weight
+	}
+	if el[i].Src.Info != el[j].Src.Info {
+		return compareNodes(el[i].Src, el[j].Src)
+	}
+	return compareNodes(el[i].Dest, el[j].Dest)
 }
 
 func (el edgeList) Swap(i, j int) {
